@@ -497,3 +497,43 @@ def _positive(repo):
     facts = exit_facts(None, None, fi, 'self', depth=5)
     if ('inv', 'pupdate') in facts:
         raise AnalysisError('R02 self-test: conditional invalidation accepted')
+
+def token_consumers(repo, res, RULE='R38'):
+    # (t) a cache token has one consumer.  pupdate / dupdate are cleared by the do_math that refreshes the cache they
+    #     guard; a second cache guarded by the same token (a memo in soc_solve, say) misses every invalidation that the
+    #     owner has already consumed: change the model, call solve() -- the token is cleared -- and the second cache
+    #     is served stale.  So: a function that tests self.<token> also clears it.
+    n_tok = 0
+    for fi in repo.all_functions():
+        if fi.cls is None or fi.module in ('deco', 'cpt_solver_bkp'):
+            continue
+        for tok in PD:
+            tests = []
+            for n in walk_no_nested(fi.node):
+                if isinstance(n, (ast.If, ast.IfExp, ast.While)):
+                    for x in ast.walk(n.test):
+                        if isinstance(x, ast.Attribute) and x.attr == tok and isinstance(x.value, ast.Name) and \
+                                x.value.id == 'self' and isinstance(x.ctx, ast.Load):
+                            tests.append(n)
+            if not tests:
+                continue
+            if fi.name == 'do_math':
+                n_tok += 1
+                res.inst({'function': fi.fq, 'tests token': tok, 'owner': True}, True)
+                continue          # the owner of the token: it refreshes the slot the token guards
+            n_tok += 1
+            clears = any(isinstance(n, ast.Assign) and any(isinstance(t, ast.Attribute) and t.attr == tok and
+                                                            ntext(t.value) == 'self' for t in n.targets)
+                         and isinstance(n.value, ast.Constant) and n.value.value is False
+                         for n in walk_no_nested(fi.node))
+            res.functions.add(fi.fq)
+            res.inst({'function': fi.fq, 'tests token': tok, 'also_clears_it': clears}, clears)
+            if not clears:
+                res.fail(Finding(RULE, fi.fq, 'second consumer of token:' + tok,
+                                 '%s decides from self.%s whether a cached object is still valid but never clears the '
+                                 'token: the do_math that owns the token clears it, so an invalidation consumed there (a '
+                                 'solve() or do_math() after the change) is never seen here and the cached object is '
+                                 'served for a model that has changed' % (fi.fq, tok), repo.where(fi, tests[0]),
+                                 {'props': ['C09', 'C18']}))
+    if n_tok < 4:
+        raise AnalysisError('R02(t): only %d token tests found' % n_tok)
